@@ -205,6 +205,8 @@ SPECIAL = [
     "def f(): pass\ndef g(x): pass\nclass K:\n    def f(self, g): pass\n    g: int = 0\n",
     "@dec('a')\nclass C(Base('b')):\n    x = 1\n",
     "class C:\n    def m(self, a, b=4): pass\n    def n(a, b=1, *, c, d=2, **kw): pass\n",
+    "class P:\n    from os import sep, linesep as eol\n    root: str = '/'\n    def join(self, sep: str = '/'): pass\nsep: str = ','\neol: str = 'LF'\n",
+    "import x, y as z\nfrom m import f, C as D\ndef f(x): pass\nclass C:\n    import y\n    y: int = 1\nx = 1\nz = 2\n",
 ]
 
 # directed rewrite stream: argument replacement with every kind of replacement node
@@ -263,7 +265,8 @@ def _module(rng, tier):
     if rng.random() < 0.12:
         return rng.choice(SPECIAL), "special"
     depth = rng.choice([1, 2, 2, 3]) if tier == "quick" else rng.choice([1, 2, 3, 4, 5])
-    return GM.gen_module(rng, depth=depth, max_items=rng.choice([3, 6, 8])), "generated"
+    return GM.gen_module(rng, depth=depth, max_items=rng.choice([3, 6, 8]),
+                         shadow_imports=rng.choice([0.0, 0.0, 0.0, 0.2])), "generated"
 
 
 def gen(rng, n, tier="quick"):
